@@ -45,6 +45,9 @@ def shapes(tier):
         out.append({"what": "sample_logp", "generate_linear": gl})
     out.append({"what": "sample_logp", "generate_linear": True, "offsets": True})
     # call history on one prior object: an earlier sample() call with another dtype / other options
+    # a user prior in which one nonlinear parameter depends on another (e | P): the log-density must be evaluated on the row's own P
+    out.append({"what": "sample_logp", "generate_linear": False, "custom": "e_given_P"})
+    out.append({"what": "sample_logp", "generate_linear": True, "custom": "e_given_P"})
     out.append({"what": "sample_logp", "generate_linear": True, "history": "float32_first"})
     out.append({"what": "sample_logp", "generate_linear": False, "history": "linear_first"})
     return out
@@ -259,6 +262,13 @@ def _sample_prior(shape):
     import pymc as pm
     import thejoker as tj
     import thejoker.units as xu
+    if shape.get("custom") == "e_given_P":
+        import pytensor.tensor as pt
+        from thejoker.distributions import UniformLog
+        with pm.Model():
+            P = xu.with_unit(UniformLog("P", 3.0, 300.0), u.day)
+            e = xu.with_unit(pm.Beta("e", alpha=pt.switch(pt.lt(P, 20.0), 0.697, 1.12), beta=3.2), u.one)
+            return tj.JokerPrior.default(sigma_K0=20 * u.km / u.s, sigma_v=50 * u.km / u.s, pars={"P": P, "e": e})
     if shape.get("offsets"):
         with pm.Model():
             dv = xu.with_unit(pm.Normal("dv0_1", 0.0, 4.0), u.km / u.s)
@@ -391,7 +401,10 @@ def replay(cand):
             if not np.array_equal(np.asarray(a["ln_prior"]), np.asarray(b["ln_prior"])):
                 bad.append("ln_prior differs between two calls with equal seeds: the log-density is evaluated at freshly drawn values, not at the row's own")
             P, e = a["P"].to_value(u.day), np.asarray(a["e"])
-            want = -np.log(P) + st.beta(0.867, 3.03).logpdf(e)
+            if shape.get("custom") == "e_given_P":
+                want = -np.log(P) + st.beta(np.where(P < 20.0, 0.697, 1.12), 3.2).logpdf(e)
+            else:
+                want = -np.log(P) + st.beta(0.867, 3.03).logpdf(e)
             if gl:
                 sig = np.minimum(20.0 * (P / 365.25) ** (-1 / 3) / np.sqrt(1 - e ** 2), 500.0)
                 want = want + st.norm(0, sig).logpdf(a["K"].to_value(u.km / u.s)) + st.norm(0, 50.0).logpdf(a["v0"].to_value(u.km / u.s))
